@@ -620,3 +620,5 @@ func (in *inst) roundTrip(lst, src string, w []byte, wait time.Duration, hdr map
 	}
 	return nil, 0, fmt.Errorf("unknown listener %s", lst)
 }
+
+func base64Raw(s string) ([]byte, error) { return base64.RawURLEncoding.DecodeString(s) }
